@@ -34,9 +34,14 @@ func TestVerifC16PeerCache(t *testing.T) {
 
 func c16peercache(r *kernel.Run, strategy int) {
 	c := newPeerCache()
-	ctx, cancel := context.WithCancel(context.Background())
-	defer cancel()
 	nwaiters := 1 + r.Choose(2)
+	ctxs := make([]context.Context, nwaiters)
+	cancels := make([]context.CancelFunc, nwaiters)
+	for i := range ctxs {
+		ctxs[i], cancels[i] = context.WithCancel(context.Background())
+		defer cancels[i]()
+	}
+	cancelTarget := r.Choose(nwaiters + 1)
 	nupd := 1 + r.Choose(3)
 	withCancel := r.Choose(4) == 3
 	withReader := r.Choose(3) == 2
@@ -53,6 +58,7 @@ func c16peercache(r *kernel.Run, strategy int) {
 	r.Logf("peercache: waiters=%d updates=%v cancel=%v reader=%v strategy=%d", nwaiters, plan, withCancel, withReader, strategy)
 	s := sched.New(r.Choose, strategy, func(f string, a ...any) { r.Logf(f, a...); r.Step() })
 	var cancelled, updaterDone atomic.Bool
+	cancelledW := make([]atomic.Bool, nwaiters)
 	currents := make([]PeersUpdate, nwaiters)
 	topics := make([]string, nwaiters)
 	for i := 0; i < nwaiters; i++ {
@@ -64,9 +70,9 @@ func c16peercache(r *kernel.Run, strategy int) {
 		}
 		s.Go(fmt.Sprintf("waiter%d", i), func() {
 			for round := 0; round < 4; round++ {
-				updated, ok := c.WaitForPeerUpdate(ctx, topics[i], currents[i])
+				updated, ok := c.WaitForPeerUpdate(ctxs[i], topics[i], currents[i])
 				if !ok {
-					if !cancelled.Load() {
+					if !cancelledW[i].Load() {
 						r.Violate("cancel", "negative-result-without-cancel", "waiter%d got ok=false without cancellation", i)
 					}
 					return
@@ -88,7 +94,15 @@ func c16peercache(r *kernel.Run, strategy int) {
 		s.Go("reader", func() { _ = c.GetPeersForTopics("t0"); _ = c.GetPeers(peer.ID("p0")) })
 	}
 	if withCancel {
-		s.Go("canceller", func() { cancelled.Store(true); cancel() })
+		s.Go("canceller", func() {
+			cancelled.Store(true)
+			for i := range cancels {
+				if cancelTarget == nwaiters || cancelTarget == i {
+					cancelledW[i].Store(true)
+					cancels[i]()
+				}
+			}
+		})
 	}
 	for s.Steps < 800 && s.Step() {
 		time.Sleep(time.Microsecond) // the fake clock moves between steps: update timestamps never tie
@@ -117,7 +131,7 @@ func c16peercache(r *kernel.Run, strategy int) {
 		r.Probe("waiter_blocked_at_end")
 		var wi int
 		fmt.Sscanf(t.Label, "waiter%d", &wi)
-		if cancelled.Load() {
+		if cancelledW[wi].Load() {
 			r.Violate("cancel", "cancelled-wait-blocked", "%s: context cancelled but WaitForPeerUpdate is still blocked in %s", t.Label, t.BlockedIn())
 			continue
 		}
@@ -125,7 +139,13 @@ func c16peercache(r *kernel.Run, strategy int) {
 			continue
 		}
 		if tu, ok := c.topics[topics[wi]]; ok {
-			for p, at := range tu.peerUpdate {
+			var ps []peer.ID
+			for p := range tu.peerUpdate {
+				ps = append(ps, p)
+			}
+			sort.Slice(ps, func(i, j int) bool { return ps[i] < ps[j] })
+			for _, p := range ps {
+				at := tu.peerUpdate[p]
 				if seen, ok := currents[wi][p]; !ok || at.After(seen) {
 					r.Violate("missed-update", "waiter-blocked-with-stale-view", "%s is blocked in %s although peer %s of topic %s was updated after what the waiter last saw; the updater has finished",
 						t.Label, t.BlockedIn(), string(p), topics[wi])
@@ -133,7 +153,9 @@ func c16peercache(r *kernel.Run, strategy int) {
 			}
 		}
 	}
-	cancel()
+	for _, c := range cancels {
+		c()
+	}
 	s.Abort()
 	r.Probe("peercache_run")
 }
